@@ -43,6 +43,13 @@ CHECKS['C14'] = dict(engine='S', tech=S_TECH + ' (random-oracle model; RNG state
 CHECKS['C15'] = dict(engine='S', tech='symbolic execution of the real codec on buffers of opaque symbolic 32-byte elements (shapes enumerated), path conditions checked by z3',
     text='bounded check: from_bytes/to_bytes/serde are executed on buffers whose 32-byte elements are opaque symbols, so one run covers every content of a shape; tag, element count, trailing remainder and canonicity forks are enumerated; the verdict must equal the stated acceptance set, the accepting path must have established canonicity of exactly the scalar elements (propositional query), re-encoding and serde must be the identity; prover output length formula and round trip on the lattice',
     note='A3, A5; shapes are enumerated (tags 0..255 thorough), not symbolic: stated as such; known finding: (bits,aggregation)=(1,1) prover output has zero rounds and is refused by the decoder', ref='§5 C15')
+M_TECH = 'symbolic evaluation of the nightly MIR of /repo (regions located by source anchors, one loop iteration from an arbitrary state), bit-vector obligations decided by z3'
+CHECKS['C06'] = dict(engine='M+S', tech=M_TECH + '; plus concrete position sweep on the symbolic harness',
+    text='bounded verification from the compiler IR: the head checks, the value guard loop, the opening check loop, the promise offset and the bit-decomposition loop of prove_with_rng are evaluated symbolically from the MIR; z3 proves Err <=> value >= 2^bits, Err <=> promise > value, From<u64> argument == ((value-promise)>>i)&1 with i in 0..bits, pushes a_li<-bit / a_ri<-bit-1, rustc overflow assertions cannot fire, recomposition sum bit_i 2^i == offset; each single violation at each position of an aggregate is run concretely',
+    note='Engine M call table (~30 core functions); loop coverage by the concrete position sweep (enumeration); invariant bit_length = power of two <= 64 from C17', ref='§5 C06')
+CHECKS['C17'] = dict(engine='M+S', tech=M_TECH + '; plus concrete sweep of the documented ranges',
+    text='bounded verification from the compiler IR: for every constructor the condition under which it reaches construction is proved equal to the documented domain for ALL integer arguments / element counts (bit-vector validity), path conditions exhaustive, arguments stored unchanged; the documented ranges (0..=130, counts 0..=17, blinding counts 0..=8, all u8) are additionally swept concretely',
+    note='Engine M call table; the sweep is enumeration (stated); Kani cross-check of the container-shaped constructors listed in DESIGN as optional', ref='§5 C17')
 NA = {
 }
 def main():
